@@ -56,7 +56,21 @@ pub fn normalise(loc: &str, msg: &str) -> String {
     };
     let mut m = String::new();
     let mut in_num = false;
-    for ch in msg.chars().take(120) {
+    // hexadecimal literals are numbers too
+    let mut cleaned = String::new();
+    let mut it = msg.chars().peekable();
+    while let Some(ch) = it.next() {
+        if ch == '0' && it.peek() == Some(&'x') {
+            it.next();
+            while matches!(it.peek(), Some(c) if c.is_ascii_hexdigit()) {
+                it.next();
+            }
+            cleaned.push('0');
+        } else {
+            cleaned.push(ch);
+        }
+    }
+    for ch in cleaned.chars().take(120) {
         if ch.is_ascii_digit() {
             if !in_num {
                 m.push('#');
